@@ -11,7 +11,7 @@ import (
 
 func runC18(c *Checker) {
 	c.Level = "other"
-	c.explain = "Write is interpreted for input lengths 0, 188, 376, 564 (loop unrolled under the fixed length) and for lengths that are not multiples of 188: the packet writer must be invoked once per packet, in order, each time with exactly the corresponding 188 input bytes in the packet buffer, only while every earlier write succeeded; counts are summed; a bad length is refused before any delivery; the input is never written. ReadFrom is checked by path rules on its SSA: the buffer handed to WritePacket is the whole packet buffer filled by a full-packet read (io.ReadFull / io.ReadAtLeast with minimum 188), the delivery is guarded by count == 188, a write error ends the loop and is returned, a trailing partial packet yields the invalid-length error, a reader error other than end-of-stream is returned. The adapters forward to the wrapped writer. Does not decide: delivery for concrete fragmentations (consequence of the full-packet-read rule and io.ReadFull's contract)."
+	c.explain = "Write is interpreted for input lengths 0, 188, 376, 564 (loop unrolled under the fixed length) and for lengths that are not multiples of 188: the packet writer must be invoked once per packet, in order, each time with exactly the corresponding 188 input bytes in the packet buffer, only while every earlier write succeeded; counts are summed; a bad length is refused before any delivery; the input is never written. ReadFrom is checked by one abstract iteration of its loop with a case analysis on the results of the read and of the delivery: the buffer handed to WritePacket is the whole packet buffer that a full-packet read (io.ReadFull / io.ReadAtLeast with minimum 188; resolved callee and abstract arguments) has filled, delivery happens only when exactly 188 bytes were read, a write error ends the loop and is returned, a trailing partial packet yields the invalid-length error, a reader error other than end-of-stream is returned, a delivered packet adds its count. The adapters forward to the wrapped writer. Does not decide: delivery for concrete fragmentations (consequence of the full-packet-read rule and io.ReadFull's contract)."
 	c.trust("go/ssa + go/types (x/tools v0.29.0)", "E1 transfer functions", "io.ReadFull contract: returns 188,nil or fewer bytes with io.EOF (none) / io.ErrUnexpectedEOF (some) / the reader's error")
 	c.checkWriterWrite()
 	c.checkReadFrom()
